@@ -20,8 +20,8 @@ static std::vector<Text> seg_seqs(const std::vector<const char*>&alpha,int n){
   for(int len=1;len<=n;++len){ std::vector<int> ix(len,0); while(true){ Text t; for(int i=0;i<len;++i){ if(i) t.push_back('/'); Text s=T(alpha[ix[i]]); t.insert(t.end(),s.begin(),s.end()); } out.push_back(t); int i=len-1; while(i>=0&&++ix[i]==(int)alpha.size()){ ix[i]=0; --i; } if(i<0) break; } }
   return out; }
 static std::vector<Text> ref_universe(int maxsegs,bool rich){
-  std::vector<const char*> sc={"","s:","t:"}, au={"","//","//h2"}, q={"","?","?q"}, f={"","#f"};
-  std::vector<const char*> alpha={"",".","..","a","b:c","%2e"};
+  std::vector<const char*> sc={"","s:","t:","sx:"}, au={"","//","//h2"}, q={"","?","?q"}, f={"","#f"};
+  std::vector<const char*> alpha={"",".","..","a","b:c","%2e","..."};
   if(rich){ au.push_back("//u@H:1"); au.push_back("//[::1]"); alpha.push_back("%2E%2e"); alpha.push_back("A%41"); }
   std::vector<Text> out;
   for(auto s:sc) for(auto a:au) for(int ab=0;ab<2;++ab) for(auto&sg:seg_seqs(alpha,maxsegs)) for(auto qq:q) for(auto ff:f){
@@ -93,19 +93,25 @@ VH_DRIVER(algebra){
       const Text&b=bases[R.below((int)bases.size())]; if(i%2) addbase_event<ApiA>(r,b,(int)(i%2),(int)(i%3)); else addbase_event<ApiW>(r,b,0,(int)(i%3)); }
   } else if(mode=="normalize"){
     std::vector<Text> in;
-    { std::vector<const char*> sc={"","s:","S:","hTtP:"}, au={"","//","//h","//H%41%7e%3a%3A","//u%3a%41@Ex.COM:1","//[ABCD::1]","//[vF.A:b]","//1.2.3.4","//U:P@h"}, qf={"","?","?a%41%7E%3a","#","#F%2f%2F%61","?q#f"};
-      std::vector<const char*> alpha={"",".","..","a","A","%41","%7e","%7E","%3a","%3A","%2e","%2E","b:c","%2E%2e","a%4"};
+    { std::vector<const char*> sc={"","s:","S:","hTtP:"}, au={"","//","//h","//H%41%7e%3a%3A","//u%3a%41@Ex.COM:1","//[ABCD::1]","//[vF.A:b]","//1.2.3.4","//U:P@h","//u%3A%7e@h%3A%2d"}, qf={"","?","?a%41%7E%3a","#","#F%2f%2F%61","?q#f","?%3A%7E%3a#%3A%61"};
+      std::vector<const char*> alpha={"",".","..","a","A","%41","%7e","%7E","%3a","%3A","%2e","%2E","b:c","%2E%2e","a%4","...","..a","%3A%61","%3A%3a%41","%2E%2E%2e"};
       auto paths=seg_seqs(alpha,g.thorough?3:2);
-      for(auto s:sc) for(auto a:au) for(int ab=0;ab<2;++ab) for(auto&sg:paths) { bool nosegs=sg.size()==1&&sg[0]==1; if(*a&&!ab&&!nosegs) continue; const char*q=qf[(in.size())%6]; Text t=T(s)+T(a); if(ab) t.push_back('/'); if(!nosegs) t=t+sg; t=t+T(q); in.push_back(t); } }
+      for(auto s:sc) for(auto a:au) for(int ab=0;ab<2;++ab) for(auto&sg:paths) { bool nosegs=sg.size()==1&&sg[0]==1; if(*a&&!ab&&!nosegs) continue; const char*q=qf[(in.size())%7]; Text t=T(s)+T(a); if(ab) t.push_back('/'); if(!nosegs) t=t+sg; t=t+T(q); in.push_back(t); } }
     static const unsigned masks[]={63,0,1,2,4,8,16,32,8|4,63^8,1|32,0x40|8,0xFFFFFFFFu};
     size_t total=in.size()*(g.thorough?64:6); double keep= total>(size_t)want? (double)want/total:1.0; long k=0;
     for(auto&t:in){ int nm= g.thorough?64:6; for(int mi=0;mi<nm;++mi){ ++k; if(keep<1.0 && (R.next()%1000000)>=keep*1000000) continue; unsigned m= g.thorough? (unsigned)mi : masks[(k+mi)%13];
         bool owned=(k%2)==0; int ep=(int)(k%3); if(k%4<2) normalize_event<ApiA>(t,m,owned,ep); else normalize_event<ApiW>(t,m,owned,ep);
         if(k%3001==0) g.sample(J().str("uri",show(t)).num("mask",m).boo("owned",owned).done()); } }
+    { const char* segs[]={"",".","..","..","a","%41","b:c","...","..a","%2e%2E","%3A%61"}; long extra= g.thorough? 100000: 2500;
+      for(long i=0;i<extra;++i){ Text r; int kind=R.below(8); if(kind==0) r=T("s:"); else if(kind==1) r=T("//h"); if(kind==1||R.below(5)==0) r.push_back('/'); int n=1+R.below(9); for(int j=0;j<n;++j){ if(j) r.push_back('/'); r=r+T(segs[R.below(11)]); }
+        unsigned m= (i%3)? 63u : 8u; if(i%2) normalize_event<ApiA>(r,m,(i%4)<2,(int)(i%3)); else normalize_event<ApiW>(r,m,(i%4)<2,(int)(i%3)); } }
   } else if(mode=="c09"){
     size_t total=refs.size()*bases.size(); double keep= total>(size_t)want? (double)want/total:1.0; long k=0;
     for(auto&r:refs){ if(has_pct_dot(r)) continue; for(auto&b:bases){ ++k; if(b.empty()||b[0]!='s') continue; if(keep<1.0 && (R.next()%1000000)>=keep*1000000) continue; if(k%2) c09_event<ApiA>(r,b); else c09_event<ApiW>(r,b);
       if(k%4001==0) g.sample(J().str("ref",show(r)).str("base",show(b)).done()); } }
+    { const char* segs[]={"",".","..","..","a","b","b:c","...","..a"}; long extra= g.thorough? 100000: 3000;
+      for(long i=0;i<extra;++i){ Text r; if(R.below(8)==0) r=T("s:"); if(R.below(6)==0) r.push_back('/'); int n=1+R.below(9); for(int j=0;j<n;++j){ if(j) r.push_back('/'); r=r+T(segs[R.below(9)]); } if(R.below(4)==0) r=r+T("?q");
+        const Text&b=bases[R.below((int)bases.size())]; if(b.empty()||b[0]!='s') continue; if(i%2) c09_event<ApiA>(r,b); else c09_event<ApiW>(r,b); } }
   } else if(mode=="equals"){
     // objects that differ in exactly one component (incl. absent vs empty), plus objects produced by resolution / normalization
     std::vector<Text> pool; for(const char*s:{"s://u@h:1/a/b?q#f","t://u@h:1/a/b?q#f","s://v@h:1/a/b?q#f","s://@h:1/a/b?q#f","s://h:1/a/b?q#f","s://u@g:1/a/b?q#f","s://u@h:2/a/b?q#f","s://u@h:/a/b?q#f","s://u@h/a/b?q#f","s://u@h:1/a/c?q#f","s://u@h:1/a/b/?q#f","s://u@h:1/a?q#f","s://u@h:1?q#f","s://u@h:1/?q#f","s://u@h:1/a/b?r#f","s://u@h:1/a/b?#f","s://u@h:1/a/b#f","s://u@h:1/a/b?q#g","s://u@h:1/a/b?q#","s://u@h:1/a/b?q",
@@ -123,6 +129,13 @@ VH_DRIVER(algebra){
     for(size_t i=0;i<n;++i) for(size_t j=0;j<n;++j){ if(i!=j && keep<1.0 && (R.next()%1000000)>=keep*1000000) continue; ++pairs;
       if(pairs%2) equals_event<ApiA>(A[i]->uri,A[j]->uri,names[i],names[j]); else if(Wd[i]->ok&&Wd[j]->ok) equals_event<ApiW>(Wd[i]->uri,Wd[j]->uri,names[i],names[j]);
       g.count(names[i]+"|"+names[j],i!=j); if(pairs%7001==0) g.sample(J().str("a",names[i]).str("b",names[j]).done()); }
+    // two objects parsed from the same buffer start with different ends (ranges alias; equal pointers must not mean equal ranges)
+    { for(const char*txt:{"http://example.com/docs/page.","//example.com","doc.html?x=1#sec-12","s://u@h:8080/a/b?q#frag","s:abc"}){ std::string bufA(txt); std::wstring bufW(bufA.begin(),bufA.end());
+        for(size_t e1=bufA.size(); e1+3>=bufA.size() && e1>0; --e1) for(size_t e2=e1; e2+3>=bufA.size() && e2>0; --e2){
+          UriUriA a,b; const char*ep; if(uriParseSingleUriExA(&a,bufA.data(),bufA.data()+e1,&ep)!=URI_SUCCESS) continue; if(uriParseSingleUriExA(&b,bufA.data(),bufA.data()+e2,&ep)!=URI_SUCCESS){ uriFreeUriMembersA(&a); continue; }
+          equals_event<ApiA>(a,b,std::string(txt).substr(0,e1)+" (shared buffer)",std::string(txt).substr(0,e2)+" (shared buffer)"); g.count(std::string(txt)+std::to_string(e1*100+e2),e1!=e2); uriFreeUriMembersA(&a); uriFreeUriMembersA(&b);
+          UriUriW aw,bw; const wchar_t*epw; if(uriParseSingleUriExW(&aw,bufW.data(),bufW.data()+e1,&epw)!=URI_SUCCESS) continue; if(uriParseSingleUriExW(&bw,bufW.data(),bufW.data()+e2,&epw)!=URI_SUCCESS){ uriFreeUriMembersW(&aw); continue; }
+          equals_event<ApiW>(aw,bw,std::string(txt).substr(0,e1)+" (shared buffer)",std::string(txt).substr(0,e2)+" (shared buffer)"); uriFreeUriMembersW(&aw); uriFreeUriMembersW(&bw); } } }
     // NULL arguments
     { int r1=ApiA::EqualsUri(nullptr,nullptr), r2=ApiA::EqualsUri(&A[0]->uri,nullptr), r3=ApiA::EqualsUri(nullptr,&A[0]->uri); if(!(r1==URI_TRUE&&r2==URI_FALSE&&r3==URI_FALSE)) g.violation(J().str("prop","C11").str("why","NULL arguments: two NULLs must be equal, NULL and non-NULL unequal").done()); }
   }
